@@ -20,10 +20,11 @@ func init() {
 			{"TXN-SOURCE", ruleTxnSource},
 			{"SHARED-STATE-ON-SUCCESS", ruleSharedStateOnSuccess},
 			{"EVENT-ONSUCCESS", ruleEventOnSuccess},
+			{"HANDLE-INDEX-UNDO", ruleHandleIndexUndo},
 			{"CTX-TXN", ruleCtxTxn},
 		},
 		Meta: eng.PropMeta{
-			Explanation: "Snapshot reads and conflict detection are implemented by the key-value store (corekv: badger / memory), outside this repository, and are not decided. Decided are the conditions under which DefraDB inherits them: (EXPLICIT-NOOP) Txn.Commit/Discard reach the underlying transaction exactly when the transaction is not marked explicit, and ensureContextTxn marks every context-supplied transaction explicit on every non-error arm; (MULTISTORE-ROOT) every sub-store of a Multistore is a prefix view of the single rootstore argument, and NewTxnFrom/NewConcurrentTxnFrom build the store tree from the very KV transaction (or its mutex wrapper) they commit and discard; (ROOTSTORE-BYPASS) reads or writes that go around any transaction (datastore.*From(rootstore)) occur only at the tabled sites (p2p bookkeeping, bitswap block store, key store, committed-head re-announcement, signature verification, the versioned fetcher's private store); (TXN-SOURCE) inside internal/db only tabled functions create transactions — an API call can not run part of its work in a private transaction; (CTX-TXN) every API entry function obtains its transaction from the context through ensureContextTxn before touching a store. (SHARED-STATE-ON-SUCCESS) objects that outlive transactions (tabled: DB, the GraphQL parser, the lens registry, the merge queue, the schema manager) assign their own fields, inside a function working under the context's transaction, only within a callback registered with txn.OnSuccess/OnSuccessAsync. (EVENT-ONSUCCESS) as in C05/C20: an update event — the way a write becomes visible to subscribers, replicators and pubsub — is published only from a transaction success callback, so a write of an open, discarded or conflicting transaction is not announced outside it.",
+			Explanation: "Snapshot reads and conflict detection are implemented by the key-value store (corekv: badger / memory), outside this repository, and are not decided. Decided are the conditions under which DefraDB inherits them: (EXPLICIT-NOOP) Txn.Commit/Discard reach the underlying transaction exactly when the transaction is not marked explicit, and ensureContextTxn marks every context-supplied transaction explicit on every non-error arm; (MULTISTORE-ROOT) every sub-store of a Multistore is a prefix view of the single rootstore argument, and NewTxnFrom/NewConcurrentTxnFrom build the store tree from the very KV transaction (or its mutex wrapper) they commit and discard; (ROOTSTORE-BYPASS) reads or writes that go around any transaction (datastore.*From(rootstore)) occur only at the tabled sites (p2p bookkeeping, bitswap block store, key store, committed-head re-announcement, signature verification, the versioned fetcher's private store); (TXN-SOURCE) inside internal/db only tabled functions create transactions — an API call can not run part of its work in a private transaction; (CTX-TXN) every API entry function obtains its transaction from the context through ensureContextTxn before touching a store. (SHARED-STATE-ON-SUCCESS) objects that outlive transactions (tabled: DB, the GraphQL parser, the lens registry, the merge queue, the schema manager) assign their own fields, inside a function working under the context's transaction, only within a callback registered with txn.OnSuccess/OnSuccessAsync. (EVENT-ONSUCCESS) as in C05/C20: an update event — the way a write becomes visible to subscribers, replicators and pubsub — is published only from a transaction success callback, so a write of an open, discarded or conflicting transaction is not announced outside it. (HANDLE-INDEX-UNDO) createIndex and dropIndex change the caller's collection handle at once and register, on every success path, an undo with the transaction, so that a discarded or failed transaction leaves no trace on the handle either.",
 			NotDecided:  "snapshot isolation, conflict detection and atomic visibility themselves (third-party KV store); lost updates and visibility timing over interleavings",
 		},
 	})
